@@ -154,7 +154,7 @@ def match_known(pid, sig, known):
 def finish(rep, level='model_checking'):
     """Write replays + evidence, print the verdict lines, return exit code."""
     known = load_known()
-    rdir = os.path.join(VERIF, 'replays', rep.pid)
+    rdir = os.path.join(os.environ.get('MC_EVIDENCE_DIR') or VERIF, 'replays', rep.pid)
     new, old = [], {}
     for key, ent in sorted(rep.viol.items()):
         k = match_known(rep.pid, ent['sig'], known)
@@ -207,8 +207,9 @@ def finish(rep, level='model_checking'):
         'coverage': cov, 'assumptions': rep.assumptions, 'wall_s': round(wall, 3),
         'violations': len(new),
     }
-    os.makedirs(os.path.join(VERIF, 'evidence'), exist_ok=True)
-    with open(os.path.join(VERIF, 'evidence', rep.pid + '.json'), 'w') as f:
+    evdir = os.environ.get('MC_EVIDENCE_DIR') or os.path.join(VERIF, 'evidence')
+    os.makedirs(evdir, exist_ok=True)
+    with open(os.path.join(evdir, rep.pid + '.json'), 'w') as f:
         json.dump(ev, f, indent=1, sort_keys=True)
     print('%s %s seed=%d: states=%d transitions=%d traces=%d nontrivial=%d outcomes=%d exhaustive=%s wall=%.1fs -> %s'
           % (rep.pid, rep.tier, rep.seed, cov['states'], cov['transitions'], traces, len(rep.nontrivial),
